@@ -1461,6 +1461,19 @@ class PolyhedralTermList(TermList):  # noqa: WPS338
         if terms_added < num_vars_to_elim:
             raise ValueError("Context has insufficient information")
 
+        # the transformation is only valid if the term's forbidden part is a nonnegative
+        # combination of the chosen rows; at a degenerate optimum the active rows may not be
+        row_matrix = np.array([[row.get_coefficient(var) for var in forbidden_vars] for row in matrix_row_terms])
+        target = np.array([term.get_coefficient(var) for var in forbidden_vars])
+        if not refine:
+            target = -target
+        try:
+            multipliers = np.linalg.solve(row_matrix.T, target)
+        except np.linalg.LinAlgError:
+            raise ValueError("Active context rows are linearly dependent")
+        if np.any(multipliers < -1e-9):  # noqa: WPS432
+            raise ValueError("Active context rows do not bound the term")
+
         return matrix_row_terms, forbidden_vars
 
     @staticmethod
